@@ -135,8 +135,8 @@ cdef class DesCounterColumnType(DesLongType):
 
 cdef class DesDateType(Deserializer):
     cdef deserialize(self, Buffer *buf, int protocol_version):
-        cdef double timestamp = unpack_num[int64_t](buf) / 1000.0
-        return datetime_from_timestamp(timestamp)
+        # integer millisecond arithmetic, like cqltypes.DateType.deserialize (float seconds lose the millisecond far from 1970)
+        return util.utc_datetime_from_ms_timestamp(unpack_num[int64_t](buf))
 
 
 cdef class TimestampType(DesDateType):
